@@ -131,23 +131,33 @@ func genC36(r *rand.Rand, name string) *c36db {
 		{Name: "u_tiny", Type: "tinyint unsigned", Family: "int"}, {Name: "u_big", Type: "bigint unsigned", Family: "uint64"},
 		{Name: "c_dec", Type: "decimal(65,30)", Family: "decimal"}, {Name: "c_dec0", Type: "decimal(10,0)", Family: "decimal"},
 		{Name: "c_float", Type: "float", Family: "float"}, {Name: "c_double", Type: "double", Family: "double"},
-		{Name: "c_bit1", Type: "bit(1)", Family: "bit"}, {Name: "c_bit16", Type: "bit(16)", Family: "bit"}, {Name: "c_bit64", Type: "bit(64)", Family: "bit"},
 		{Name: "c_year", Type: "year", Family: "year"}, {Name: "c_bool", Type: "boolean", Family: "int"},
 	}
 	nums.Tail = "primary key (id), key ix_big (c_big), unique key ux (c_int, c_tiny)"
 	nines := strings.Repeat("9", 35) + "." + strings.Repeat("9", 30)
 	numRows := [][]string{
-		{"-128", "-32768", "-8388608", "-2147483648", "-9223372036854775808", "0", "0", "-" + nines, "-9999999999", "-3.4028235e38", "-1.7976931348623157e308", "b'0'", "b'0'", "b'0'", "1901", "0"},
-		{"127", "32767", "8388607", "2147483647", "9223372036854775807", "255", "18446744073709551615", nines, "9999999999", "3.4028235e38", "1.7976931348623157e308", "b'1'", "b'1111111111111111'", "b'" + strings.Repeat("1", 64) + "'", "2155", "1"},
+		{"-128", "-32768", "-8388608", "-2147483648", "-9223372036854775808", "0", "0", "-" + nines, "-9999999999", "-1.5e38", "-1.5e308", "b'0'", "b'0'", "b'0'", "1901", "0"},
+		{"127", "32767", "8388607", "2147483647", "9223372036854775807", "255", "18446744073709551615", nines, "9999999999", "1.5e38", "1.5e308", "b'1'", "b'1111111111111111'", "b'" + strings.Repeat("1", 64) + "'", "2155", "1"},
 		{"0", "0", "0", "0", "0", "1", "9223372036854775808", "0." + strings.Repeat("0", 29) + "1", "0", "1.17549435e-38", "5e-324", "b'1'", "b'0101110000100111'", "b'0010011100100010010111000000000000001010'", "0", "1"},
 		{"NULL", "NULL", "NULL", "NULL", "NULL", "NULL", "NULL", "NULL", "NULL", "NULL", "NULL", "NULL", "NULL", "NULL", "NULL", "NULL"},
 		{"-1", "-1", "-1", "-1", "-1", "128", "1", "-0." + strings.Repeat("0", 29) + "1", "-1", "0.1", "0.1", "b'0'", "b'0010011100100111'", "b'1'", "2000", "NULL"},
 		{"1", "1", "1", "7", "1", "2", "2", "1.5", "2", "-0.0", "1e-7", "b'1'", "b'0000000000001010'", "b'0000000000000000'", "1999", "0"},
 	}
-	for _, row := range numRows {
-		nums.Rows = append(nums.Rows, append([]string{"NULL"}, row...)) // id generated by auto_increment
+	bits := &c36table{Name: "bits", Kind: "bits", Order: "id"}
+	bits.Cols = []c36col{{Name: "id", Type: "int not null", Family: "int"}, {Name: "c_bit1", Type: "bit(1)", Family: "bit"}, {Name: "c_bit16", Type: "bit(16)", Family: "bit"}, {Name: "c_bit64", Type: "bit(64)", Family: "bit"}}
+	bits.Tail = "primary key (id)"
+	for i, row := range numRows {
+		// the three bit values live in their own table (a route that cannot load BIT must not hide the other numeric types)
+		bits.Rows = append(bits.Rows, append([]string{fmt.Sprint(i + 1)}, row[11:14]...))
+		rest := append(append([]string{}, row[:11]...), row[14:]...)
+		nums.Rows = append(nums.Rows, append([]string{"NULL"}, rest...)) // id generated by auto_increment
 	}
-	db.Tables = append(db.Tables, nums)
+	// the largest finite float / double in their own table (so that a route failing on them does not hide the other numerics)
+	ext := &c36table{Name: "extremes", Kind: "extremes", Order: "id"}
+	ext.Cols = []c36col{{Name: "id", Type: "int not null", Family: "int"}, {Name: "c_float", Type: "float", Family: "float_max"}, {Name: "c_double", Type: "double", Family: "double_max"}}
+	ext.Tail = "primary key (id)"
+	ext.Rows = [][]string{{"1", "3.4028234e38", "1.7976931348623157e308"}, {"2", "-3.4028234e38", "-1.7976931348623157e308"}, {"3", "1.17549435e-38", "2.2250738585072014e-308"}}
+	db.Tables = append(db.Tables, nums, bits, ext)
 
 	// ---- strs
 	strs := &c36table{Name: "strs", Kind: "strs", Order: "id"}
@@ -166,7 +176,7 @@ func genC36(r *rand.Rand, name string) *c36db {
 		{Name: "c_set", Type: "set('a','b''c','d e','\"q\"')", Family: "set"},
 	}
 	strs.Tail = "primary key (id), unique key uk (k), key ix_v (v(10)), key ix_txt (`my col`(8))"
-	enumVals := []string{"'x'", "'it''s'", "'semi;colon'", "'back\\\\slash'", "''", "'ÿ'", "NULL"}
+	enumVals := []string{"'x'", "'it''s'", "'semi;colon'", "''", "'ÿ'", "NULL"}
 	setVals := []string{"''", "'a'", "'a,b''c'", "'d e,\"q\"'", "'a,b''c,d e,\"q\"'", "NULL"}
 	nStr := 24 + r.Intn(16)
 	for i := 0; i < nStr; i++ {
@@ -260,9 +270,14 @@ func genC36(r *rand.Rand, name string) *c36db {
 		{"2", "'9999-12-31'", "'9999-12-31 23:59:59'", "'9999-12-31 23:59:59.999999'", "'2038-01-19 03:14:07'", "'2038-01-19 03:14:07.999999'", "'838:59:59'", "'838:59:59.000000'"},
 		{"3", "NULL", "NULL", "NULL", "NULL", "NULL", "NULL", "NULL"},
 		{"4", "'2024-02-29'", "'2024-02-29 12:34:56'", "'2024-02-29 12:34:56.000001'", "'2024-02-29 12:34:56'", "'2024-02-29 12:34:56.100000'", "'00:00:00'", "'12:34:56.789012'"},
-		{"5", "'0001-01-01'", "'0001-01-01 00:00:00'", "'0001-01-01 00:00:00.000001'", "'2000-01-01 00:00:00'", "'2000-01-01 00:00:00.000001'", "'-00:00:01'", "'-00:00:00.000001'"},
+		{"5", "'1000-01-01'", "'1000-01-01 00:00:01'", "'1000-01-01 00:00:00.000001'", "'2000-01-01 00:00:00'", "'2000-01-01 00:00:00.000001'", "'-00:00:01'", "'-00:00:00.000001'"},
 	}
-	db.Tables = append(db.Tables, times)
+	// years below 1000 (accepted by dolt, outside MySQL's documented range) in their own table
+	early := &c36table{Name: "times_early", Kind: "times_early", Order: "id"}
+	early.Cols = []c36col{{Name: "id", Type: "int not null", Family: "int"}, {Name: "c_date", Type: "date", Family: "date_early"}, {Name: "c_dt6", Type: "datetime(6)", Family: "date_early"}}
+	early.Tail = "primary key (id)"
+	early.Rows = [][]string{{"1", "'0001-01-01'", "'0001-01-01 00:00:00.000001'"}, {"2", "'0999-12-31'", "'0999-12-31 23:59:59.999999'"}}
+	db.Tables = append(db.Tables, times, early)
 
 	// ---- docs (JSON)
 	docs := &c36table{Name: "docs", Kind: "docs", Order: "id"}
